@@ -377,10 +377,34 @@ func (x *Exec) addrRoot(v ssa.Value) (alloc *ssa.Alloc, path []int, heapKeys []s
 		if al != nil {
 			return al, append(append([]int{}, p...), a.Field), nil, false
 		}
-		// heap object: narrow keys by the field
-		pt := a.X.Type().Underlying().(*types.Pointer).Elem()
+		// heap object: narrow the keys by the whole chain of field selections, starting at the object that
+		// owns the storage (p.span.End lives under F:Inline.span.End, s[i].f under E:T.f - naming the keys
+		// after the innermost struct type left such stores out of the loop's modified set)
 		_ = hk
-		return nil, nil, x.keysOfObject(pt, []int{a.Field}), false
+		var path []int
+		var cur ssa.Value = a
+		for {
+			fa, ok := cur.(*ssa.FieldAddr)
+			if !ok {
+				break
+			}
+			path = append([]int{fa.Field}, path...)
+			cur = fa.X
+		}
+		if ia, ok := cur.(*ssa.IndexAddr); ok {
+			et := elemTypeOf(ia.X.Type())
+			if et == nil || typeKind(et) != KStruct {
+				return nil, nil, nil, true
+			}
+			var keys []string
+			base := elemKeyBase(et) + pathSuffix(et, path)
+			for _, lf := range leavesOf(typeAt(et, path)) {
+				keys = append(keys, base+lf.suffix)
+			}
+			return nil, nil, keys, false
+		}
+		pt := cur.Type().Underlying().(*types.Pointer).Elem()
+		return nil, nil, x.keysOfObject(pt, path), false
 	case *ssa.IndexAddr:
 		et := elemTypeOf(a.X.Type())
 		if et == nil {
